@@ -62,6 +62,40 @@ theorem inst_backbone_ranges :
     (∀ e ∈ Propka.Gen.Cfg.f_backbone_NH_hydrogen_bond, e.2.getD 2 0 ≤ 20000000 ∧ e.2.getD 1 0 < e.2.getD 2 0 ∧ e.2.length = 3) ∧
     (∀ e ∈ Propka.Gen.Cfg.f_backbone_CO_hydrogen_bond, e.2.getD 2 0 ≤ 20000000 ∧ e.2.getD 1 0 < e.2.getD 2 0 ∧ e.2.length = 3) := by decide +kernel
 
+/-- a table entry `[dpKa_max, inner, outer]` in millionths, read as reals -/
+noncomputable def cut (e : String × List Int) (k : Nat) : ℝ := ((e.2.getD k 0 : Int) : ℝ) / 1000000
+
+/-- **No backbone hydrogen bond beyond 20 A with the shipped tables**: for every entry of both backbone tables the
+    hydrogen-bond energy vanishes at every distance above 20 A, whatever the angle factor (the decided table facts
+    `inst_backbone_ranges` combined with the kernel lemma `hbond_zero_beyond`). -/
+theorem inst_backbone_zero_beyond_20 (e : String × List Int)
+    (he : e ∈ Propka.Gen.Cfg.f_backbone_NH_hydrogen_bond ∨ e ∈ Propka.Gen.Cfg.f_backbone_CO_hydrogen_bond) (dist f : ℝ) (hd : 20 < dist) :
+    hbondEnergy dist (cut e 0) (cut e 1) (cut e 2) f = 0 := by
+  have h : e.2.getD 2 0 ≤ 20000000 ∧ e.2.getD 1 0 < e.2.getD 2 0 ∧ e.2.length = 3 := by
+    rcases he with he | he
+    · exact inst_backbone_ranges.1 e he
+    · exact inst_backbone_ranges.2 e he
+  obtain ⟨h2, h12, _⟩ := h
+  apply hbond_zero_beyond
+  · unfold cut
+    have : ((e.2.getD 1 0 : Int) : ℝ) < ((e.2.getD 2 0 : Int) : ℝ) := by exact_mod_cast h12
+    exact div_lt_div_of_pos_right this (by norm_num)
+  · unfold cut
+    have : ((e.2.getD 2 0 : Int) : ℝ) ≤ 20000000 := by exact_mod_cast h2
+    have : ((e.2.getD 2 0 : Int) : ℝ) / 1000000 ≤ 20 := by
+      rw [div_le_iff₀ (by norm_num)]; linarith
+    linarith
+
+/-- with the shipped parameters: the buried-fraction weights are fractions, the Coulomb energy is bounded and vanishes from
+    10 A on, the desolvation penalty has the sign of the charge -/
+theorem shipped_coulomb_zero_beyond (d w : ℝ) (hd : 10 ≤ d) : coulombEnergy shippedReal d w = 0 := by
+  apply coulomb_zero_beyond shippedReal shipped_wellformed
+  have : shippedReal.cc2 = 10 := by
+    show ((shippedMicro.cc2 : ℤ) : ℝ) / 1000000 = 10
+    have h : shippedMicro.cc2 = 10000000 := by decide
+    rw [h]; norm_num
+  rw [this]; exact hd
+
 end Propka.Energy
 
 namespace Propka.Iter
